@@ -1,8 +1,8 @@
 #!/bin/bash
-# usage: tools_verify_mutant.sh <PROP> <variant>   (reads /tmp/mut/out/<PROP>/<variant>/{patch.diff,demo.py,meta.json})
-# confirms in a scratch worktree: patch applies, demo fails with it and passes without, the 317 baseline tests still pass.
+# usage: tools_verify_mutant.sh <srcdir> <id>   (reads <srcdir>/{patch.diff,demo.py,meta.json}; stores /verif/seeded/<id>/ when confirmed)
+# confirms in a scratch worktree: patch applies, demo fails with it and passes without, the test suite result equals that of the unpatched HEAD (318 passed, 1 failed: test_viewshed needs a GPU-less rtx fallback; before fix da6acd2 it was 317/2).
 set -u
-prop=$1; v=$2; src=/tmp/mut/out/$prop/$v; id=${prop}${v}
+src=$1; id=$2; mkdir -p /tmp/mv
 wt=/tmp/mv/$id
 log=/tmp/mv/$id.log
 : > $log
@@ -16,7 +16,7 @@ tests=$(grep -E "passed|failed" $log | tail -1)
 cd /
 git -C /repo worktree remove --force $wt
 ok=no
-if [ $d0 -eq 0 ] && [ $d1 -ne 0 ] && echo "$tests" | grep -q "317 passed" && echo "$tests" | grep -q "2 failed"; then ok=yes; fi
+if [ $d0 -eq 0 ] && [ $d1 -ne 0 ] && echo "$tests" | grep -q "318 passed" && echo "$tests" | grep -q "1 failed"; then ok=yes; fi
 echo "$id demo_clean_rc=$d0 demo_mutant_rc=$d1 tests='$tests' OK=$ok"
 if [ $ok = yes ]; then
   mkdir -p /verif/seeded/$id
